@@ -270,6 +270,9 @@ class Layout:
             if isinstance(base, list) and isinstance(idx, int):
                 base[idx] = v
                 return
+            if isinstance(base, list) and isinstance(idx, Sl) and all(x is None or isinstance(x, int) for x in (idx.lo, idx.hi, idx.st)):
+                base[slice(idx.lo, idx.hi, idx.st)] = list(v)
+                return
             if isinstance(base, Arr):
                 # element-wise store into an array: layout of the stored region only
                 raise AnalysisError("layout: store into an array not modelled: %s" % unparse(t)[:50])
@@ -501,6 +504,12 @@ class Layout:
                 return self.truth(args[0], n.args[0])
             if f.id == "int":
                 return args[0]
+            if f.id == "abs" and isinstance(args[0], int):
+                return abs(args[0])
+            if f.id in ("min", "max") and all(isinstance(a, int) and not isinstance(a, bool) for a in args):
+                return min(args) if f.id == "min" else max(args)
+            if f.id == "sorted" and isinstance(args[0], (list, tuple)) and all(isinstance(a, int) for a in args[0]):
+                return sorted(args[0])
             raise AnalysisError("layout: call %s" % unparse(n)[:50])
         target = self.ev(f)
         args = [self.ev(a) for a in n.args]
